@@ -42,6 +42,11 @@ CHECKS = {
   text="Proof: the condition-variable RwLock, the flock-based RwLock (kernel = correct RW lock) and the keyed LockDict are transition systems at the granularity of their synchronisation operations; invariants are proved by induction over all reachable states for any thread count, and yield mutual exclusion, correct self-view, absence of lost wake-ups and deadlock freedom. Tie: the real classes run with threading/fcntl/open replaced (in the lock modules' namespaces) by cooperative stand-ins; after every scheduled operation counters, mutex owner, per-thread phase, `locked` and the enabled set must equal the model's.",
   note="Trusted: Lean kernel, standard axioms; the stand-ins re-implement Lock/Condition semantics (CPython's own implementation is not exercised); kernel flock correctness is an assumption; 'eventually' needs a fair scheduler; writer starvation is not excluded by the code and not claimed.",
   ref="5/C11"),
+ "C20": dict(
+  technique="Lean 4 loop invariant of the accept loop for every arrival/completion/shutdown order (slots <= max_connections, no slot leak, no accept after shutdown, returns only when idle) + the real serve() loop driven through scripted select/server/socket stand-ins, plus real-socket runs with a blocking handler",
+  text="Proof (partial): the main loop of radicale.server.serve is a transition system over (slots in use, running workers, backlog, shutdown, phase); by induction over any event sequence the slots in use never exceed max_connections, a finished worker frees its slot at the next iteration, a waiting client is accepted whenever a slot is free, nothing is accepted once shutdown was seen and the function returns only with no request in flight; the Content-Length gate is a closed formula. Tie: generated environment schedules drive the real serve() with select.select, the server class and sockets replaced by scripted stand-ins; poll sets, slot counts and the return point are compared with the model at every iteration; real-socket runs check the concurrent-entry bound, 413 and shutdown with requests in flight.",
+  note="Partial: the idle-client time-out and complete responses on the wire are socket/OS behaviour, observed in the real-socket runs, not modelled. Trusted: Lean kernel, standard axioms; the scripted stand-ins; socketserver/wsgiref threading.",
+  ref="5/C20"),
 }
 
 NA_REASON = "check not built yet (work in progress; see DESIGN.md section 5 for the plan)"
